@@ -206,7 +206,11 @@ class _randobj:
                                     model.add_field(fo._int_field_info.model)
                     
                                 # Now, elaborate the constraints
-                        for f in dir(self):
+                        # Dynamic constraints first: the others may refer to them
+                        names = dir(self)
+                        names.sort(key=lambda f: not isinstance(
+                            getattr(type(self), f, None), dynamic_constraint_t))
+                        for f in names:
                             if not f.startswith("__") and not f.startswith("_int"):
                                 fo = getattr(self, f)
                                 if isinstance(fo, constraint_t):
